@@ -357,12 +357,16 @@ func genC10Leaf(t *rapid.T, parseable bool) objSpec {
 		}
 		return fpt{F(rapid.IntRange(3, 11).Draw(t, label+"x")), F(rapid.IntRange(3, 11).Draw(t, label+"y"))}
 	}
-	kinds := []string{"Point", "LineString", "Polygon", "Polygon", "Rect", "SimplePoint"}
+	kinds := []string{"Point", "LineString", "Polygon", "Polygon", "Rect", "SimplePoint", "Circle"}
 	if parseable {
 		kinds = []string{"Point", "LineString", "Polygon", "Polygon"}
 	}
 	s := objSpec{Kind: rapid.SampledFrom(kinds).Draw(t, "leafkind")}
 	switch s.Kind {
+	case "Circle": // one position, a rectangle several lattice units wide: found by a search that misses its centre
+		s.Pts = []fpt{{F(rapid.IntRange(3, 11).Draw(t, "clx")), F(rapid.IntRange(3, 11).Draw(t, "cly"))}}
+		s.Radius = F(rapid.SampledFrom([]float64{0, 30000, 120000, 250000, 400000}).Draw(t, "clr"))
+		s.Steps = 64
 	case "Point", "SimplePoint":
 		s.Pts = []fpt{lp("p")}
 	case "LineString":
